@@ -2,9 +2,10 @@
    (on top of Routing/PyRuntime.v, which is reused unchanged).  Definitions only.
 
    External behaviour is explicit: every generated function takes an [oracle]
-     o_call  f args : what calling the configured predicate returns (or raises), once its
-                      result is available (for a coroutine function: the awaited result)
+     o_call  f args : what calling the configured predicate returns (or raises); for a coroutine
+                      function / an object with async __call__ that is a coroutine object
      o_iscoro f     : asyncio.iscoroutinefunction(f)
+     o_iscoroutine v, o_await v : asyncio.iscoroutine(v), the result of awaiting v
      o_ext name args: a service of the server object (self.sio.<...>) called AFTER the
                       authentication decision (start_background_task, eio.create_event, ...)
    Nothing is assumed about them here; the theorems carry their premises visibly. *)
@@ -12,39 +13,47 @@ From VT Require Export Routing.PyRuntime.
 Open Scope N_scope.
 
 Record oracle := mkOracle {
-  o_call : pv -> list pv -> Res pv;
-  o_iscoro : pv -> bool;
+  o_call : pv -> list pv -> Res pv;      (* what CALLING the callable returns / raises (possibly a coroutine object) *)
+  o_iscoro : pv -> bool;                 (* asyncio.iscoroutinefunction(f) *)
+  o_iscoroutine : pv -> bool;            (* asyncio.iscoroutine(v) *)
+  o_await : pv -> Res pv;                (* the result of awaiting the coroutine object v *)
   o_ext : str -> list pv -> Res pv
 }.
 
 (* a callable is an opaque object *)
 Definition is_callable (f : pv) : bool := match f with PObj _ => true | _ => false end.
 
-(* the object a coroutine function returns when it is called and not awaited: truthy *)
+(* the token the case oracles use for "a coroutine object": truthy *)
 Definition coroutine_object : pv := PObj 4294967295.
 
 (* arguments are evaluated left to right *)
 Fixpoint eval_args (l : list (Res pv)) : Res (list pv) :=
   match l with [] => Ok [] | x :: r => v <- x ;; vs <- eval_args r ;; Ok (v :: vs) end.
 
-(* f(args) not under an await: a coroutine function only builds a coroutine object *)
+(* f(args): whatever the call returns; for a coroutine function that is a coroutine object *)
 Definition py_call (o : oracle) (f : Res pv) (args : list (Res pv)) : Res pv :=
   g <- f ;;
   a <- eval_args args ;;
-  if is_callable g
-  then (if o_iscoro o g then Ok coroutine_object else o_call o g a)
+  if is_callable g then o_call o g a
   else Err TypeError.                      (* 'dict' / 'str' ... object is not callable *)
 
-(* await f(args): the result of the coroutine; awaiting a plain value is a TypeError *)
+(* await v: only coroutine objects are awaitable in this fragment *)
+Definition py_await (o : oracle) (v : Res pv) : Res pv :=
+  x <- v ;; if o_iscoroutine o x then o_await o x else Err TypeError.
+
+(* await f(args) *)
 Definition py_call_await (o : oracle) (f : Res pv) (args : list (Res pv)) : Res pv :=
-  g <- f ;;
-  a <- eval_args args ;;
-  if is_callable g
-  then (if o_iscoro o g then o_call o g a else (_ <- o_call o g a ;; Err TypeError))
-  else Err TypeError.
+  py_await o (py_call o f args).
 
 Definition py_iscoroutinefunction (o : oracle) (f : Res pv) : Res pv :=
   g <- f ;; Ok (PBool (is_callable g && o_iscoro o g)).
+Definition py_iscoroutine (o : oracle) (v : Res pv) : Res pv :=
+  x <- v ;; Ok (PBool (o_iscoroutine o x)).
+
+(* try: body / except Exception: handler.  Every exception of the modelled universe is an Exception
+   (BaseException-only conditions such as CancelledError / KeyboardInterrupt are outside it) *)
+Definition py_try {T} (body handler : Res T) : Res T :=
+  match body with Ok v => Ok v | Err _ => handler end.
 
 Definition py_isinstance_dict (a : Res pv) : Res pv :=
   x <- a ;; Ok (PBool (match x with PDict _ => true | _ => false end)).
